@@ -24,7 +24,11 @@ HandlerJson(h) ==
     LET st == hs[h] IN
     [started |-> st.pc # "idle", req |-> st.req, ops |-> st.ops, status |-> ExpStatus(h),
      body_allowed |-> BodyAllowed(ExpStatus(h), st.req.method),
-     modes |-> {[mode |-> m, ce |-> ExpCE(st.req, m), cl |-> ExpCL(st.req, m)] : m \in AllowedModes(st.req, Len(st.ops))}]
+     \* a response that cannot have a body (HEAD, 204, 304) has nothing to compress: for it only
+     \* "never labelled gzip unless gzip is permitted" and the status are asserted
+     modes |-> {[mode |-> m, ce |-> ExpCE(st.req, m), cl |-> ExpCL(st.req, m)] :
+                  m \in AllowedModes(st.req, Len(st.ops))
+                        \cup (IF BodyAllowed(ExpStatus(h), st.req.method) THEN {} ELSE {"plain"})}]
 BehaviourJson == [hist |-> hist, handlers |-> [h \in Handlers |-> HandlerJson(h)]]
 
 View == <<hs, pool, made, wbuf, wtarget>>
